@@ -955,6 +955,7 @@ def run(ctx):
     for (c, L1, L2), (res, resw) in zip(dcases, dres):
         oracle_case(ctx, c, L1, L2, res, resw)
     relations(ctx, dcases, dres, IN, quick)
+    decomposition_checks(ctx, dcases)
     twin_checks(ctx, dcases, dres, IN, quick)
     alias_checks(ctx, cases, quick, ndisjoint)
     betweenness_checks(ctx, dcases, quick)
@@ -1413,6 +1414,52 @@ def transpose(v):
     if isinstance(v, str):
         return v
     return [list(r) for r in zip(*v)] if v and v[0] else v
+
+
+def decomposition_checks(ctx, cases):
+    """round 5 (theorems `degree_decomposition`, `nsi_degree_decomposition`,
+    `n_links_decomposition[_directed]`), on the implementation only: for every bipartition
+    (L1, L2) of the node set the single-network degree / n.s.i. degree / link count is the sum of
+    the internal and the cross quantity"""
+    for c, L1, L2 in cases:
+        if sorted(list(L1) + list(L2)) != list(range(c.n)):
+            continue
+        net = c.net
+        ctx.count("relation:bipartition-decomposition")
+
+        def vec(f):
+            v = call(f)
+            return v if isinstance(v, str) else [x for r in v for x in r]
+        deg = vec(net.degree)
+        i1, c12 = vec(lambda: net.internal_degree(L1)), vec(lambda: net.cross_degree(L1, L2))
+        bad = []
+        if isinstance(deg, str) or isinstance(i1, str) or isinstance(c12, str) or \
+                [deg[a] for a in L1] != [x + y for x, y in zip(i1, c12)]:
+            bad.append(("degree", f"Network.degree()[L1]={deg} internal={i1} cross={c12}"))
+        nd = vec(net.nsi_outdegree)   # = nsi_degree() on undirected networks (Net.nsiOutdeg)
+        n1, n12 = vec(lambda: net.nsi_internal_degree(L1)), vec(lambda: net.nsi_cross_degree(L1, L2))
+        if isinstance(nd, str) or isinstance(n1, str) or isinstance(n12, str) or any(
+                abs(nd[a] - (x + y)) > 1e-9 * max(2.0 ** -40, abs(nd[a]))
+                for a, x, y in zip(L1, n1, n12)):
+            bad.append(("nsi_outdegree", f"Network.nsi_outdegree()={nd} internal={n1} cross={n12}"))
+        nl = call(lambda: net.n_links)
+        a1, a2 = call(lambda: net.number_internal_links(L1)), \
+            call(lambda: net.number_internal_links(L2))
+        if c.directed:
+            x12 = vec(lambda: net.cross_outdegree(L1, L2))
+            x21 = vec(lambda: net.cross_outdegree(L2, L1))
+            cross = None if isinstance(x12, str) or isinstance(x21, str) else sum(x12) + sum(x21)
+        else:
+            x = call(lambda: net.number_cross_links(L1, L2))
+            cross = None if isinstance(x, str) else x[0][0]
+        if cross is None or isinstance(nl, str) or isinstance(a1, str) or isinstance(a2, str) or \
+                nl[0][0] != a1[0][0] + a2[0][0] + cross:
+            bad.append(("n_links", f"n_links={nl} internal={a1},{a2} cross={cross}"))
+        for nm, what in bad:
+            ctx.fail(sig(nm, "bipartition-decomposition", c),
+                     f"Network.{nm} is not the sum of the internal and the cross quantity of the "
+                     f"bipartition ({L1}, {L2}): {what}",
+                     replay_of(c, L1, L2, method=nm, observed=what))
 
 
 def relations(ctx, cases, impl_results, IN, quick):
@@ -2262,6 +2309,35 @@ def ccn_checks(ctx, quick):
                      "nodes_1 / nodes_2 / adjacency held by the CoupledClimateNetwork changed "
                      "during a history of wrapper calls",
                      {"adjacency": A, "N_1": N1, "N_2": N2})
+        # round 5, implementation only (theorems ccn_degree, ccn_n_links,
+        # ccn_cross_degree_handshake): Network.degree() = internal_degree() + cross_degree()
+        # layer by layer; n_links = links within the layers + links between them
+        def quiet(f):
+            with contextlib.redirect_stdout(io.StringIO()):
+                return call(f)
+        ctx.count("relation:ccn-layer-decomposition")
+        try:
+            idg, cdg = ccn.internal_degree(), ccn.cross_degree()
+            whole = [int(x) for x in np.asarray(ccn.degree()).tolist()]
+            parts = [int(x) + int(y) for x, y in zip(idg[0], cdg[0])] + \
+                [int(x) + int(y) for x, y in zip(idg[1], cdg[1])]
+            okd = whole == parts
+            if directed:
+                okl = True
+            else:
+                nil = ccn.number_internal_links()
+                ncl = int(ccn.number_cross_layer_links())
+                okl = int(ccn.n_links) == int(nil[0]) + int(nil[1]) + ncl and \
+                    int(np.sum(cdg[0])) == ncl == int(np.sum(cdg[1]))
+        except Exception as e:  # noqa
+            okd, okl, whole, parts = False, False, "raise:" + type(e).__name__, None
+        if not (okd and okl):
+            ctx.fail({"class": "CoupledClimateNetwork", "method": "degree / n_links",
+                      "relation": "layer-decomposition"},
+                     "Network.degree() / n_links of a CoupledClimateNetwork is not the sum of the "
+                     "internal and cross quantities of its two layers",
+                     {"adjacency": A, "N_1": N1, "N_2": N2, "directed": directed,
+                      "degree": str(whole), "internal+cross": str(parts)})
         # round 5: the same object once more, now against the Lean model of the wrappers
         G = np.asarray(ccn.distance(), dtype=float)
         Sfull32 = np.asarray(ccn.similarity_measure(), dtype=float)
